@@ -181,7 +181,7 @@ def check_c19(prop, tier, seed, sd, t0):
 # probe-based checks: a Go probe runs the real engine on generated inputs and logs
 # (input, real result); TLC evaluates the specification's value for every line
 
-def probe_check(prop, tier, seed, sd, t0, probe_pkg, mc, trace_module, trace_cfg, extra_modules, prefix, rule, assumptions, unit='ev":"q"', extra_cov=None):
+def probe_check(prop, tier, seed, sd, t0, probe_pkg, mc, trace_module, trace_cfg, extra_modules, prefix, rule, assumptions, unit='ev":"q"', extra_cov=None, selfcontained=False):
     mcs = []
     for name, module, cfg, timeout in mc:
         r = vlib.model_check(sd, name, module, cfg, timeout)
@@ -205,7 +205,7 @@ def probe_check(prop, tier, seed, sd, t0, probe_pkg, mc, trace_module, trace_cfg
     lines = open(tf).read().splitlines()
     chunks, cur = [], []
     for l in lines:
-        if ('"ev":"corpus"' in l or '"ev":"reset"' in l) and len(cur) >= 4000:
+        if (selfcontained or '"ev":"corpus"' in l or '"ev":"reset"' in l) and len(cur) >= 4000:
             chunks.append(cur)
             cur = []
         cur.append(l)
@@ -251,11 +251,11 @@ def probe_check(prop, tier, seed, sd, t0, probe_pkg, mc, trace_module, trace_cfg
     if real:
         (c, line, k), _ = real[0]
         j = line - 1
-        while j > 0 and '"ev":"corpus"' not in lines[j] and '"ev":"reset"' not in lines[j]:
+        while not selfcontained and j > 0 and '"ev":"corpus"' not in lines[j] and '"ev":"reset"' not in lines[j]:
             j -= 1
         d = os.path.join(VERIF, 'replays', prop, '%d-%s' % (int(time.time()), seed))
         os.makedirs(d, exist_ok=True)
-        open(os.path.join(d, 'trace.ndjson'), 'w').write(lines[j] + '\n' + lines[line - 1] + '\n')
+        open(os.path.join(d, 'trace.ndjson'), 'w').write((lines[j] + '\n' if j != line - 1 else '') + lines[line - 1] + '\n')
         json.dump(dict(property=prop, clause=c, line=line, kind='probe', module=trace_module, cfg=trace_cfg, extra=list(extra_modules)), open(os.path.join(d, 'meta.json'), 'w'), indent=1)
         log('VIOLATION property=%s replay=%s' % (prop, d))
         log('  %s at line %d: %s' % (c, line, lines[line - 1][:700]))
@@ -287,9 +287,45 @@ def check_c07(prop, tier, seed, sd, t0):
                        extra_cov=lambda lines: dict(excluded_query_kinds=['geo distance', 'geo bounding box', 'geo polygon']))
 
 
-CHECKS = {'C13': check_c13, 'C19': check_c19, 'C07': check_c07}
+def check_c09(prop, tier, seed, sd, t0):
+    return probe_check(prop, tier, seed, sd, t0, './cmd/collprobe', [('collector', 'Collector.tla', 'MC_collector.cfg' if tier == 'quick' else 'MC_collector_t.cfg', 1500)],
+                       'CollectorTrace.tla', 'CollectorTrace.cfg', ('CollectorCore.tla',), 'C09_',
+                       'real TopN searches over generated corpora (1..35 documents in 1..4 segments, pending deletions, heavy ties: key domains of 2..4 values, missing values) x '
+                       '3 queries x sort orders of 1..3 keys drawn from numeric, keyword, date and score, each ascending/descending and missing first/last x (n, from) from '
+                       '{0,1,2,3,5,9,10,11,13,40} x {0,1,2,5,9,10,11,30} (both sides of the slice/heap switch at 10) x single pages after/before the key of a random match x '
+                       'after- and before-chains with page sizes 1,2,3,4,10,11; TLC computes the abstract slice / page (CollectorCore) for every call; keys are integers '
+                       '(numeric value, date seconds, dense rank of keyword / observed score); distinct = distinct logged calls',
+                       ['the harness maps sort values to integers order-preservingly (dense ranks for keywords and observed scores)',
+                        'hit number = position in the AllMatches result (index order)', 'multi-valued sort fields are not generated'],
+                       unit='"ev":"', selfcontained=True)
+
+
+def check_c16(prop, tier, seed, sd, t0):
+    return probe_check(prop, tier, seed, sd, t0, './cmd/aggprobe', [], 'AggsTrace.tla', 'AggsTrace.cfg', ('Aggs.tla',), 'C16_',
+                       'real searches with an aggregation tree (count, sum, min, max, avg, weighted avg, cardinality, quantiles; terms of size 1..4 with nested sum; numeric ranges incl. '
+                       'an empty and a negative one with nested sum and max; date ranges) over generated corpora (1..14 documents, 1..3 segments, pending deletions; numeric field with 0..2 '
+                       'values incl. negatives, weight field sometimes missing, keyword field single- or multi-valued or missing, date field) x 3 queries x 8 (12) request settings: AllMatches, '
+                       'and TopN with n in {0,1,2,3,10,11,50}, from in {0,1,3,12}, four sort orders, and After/Before paging keys; TLC evaluates Aggs.tla on the matched documents (obtained by a '
+                       'separate AllMatches run) for every line, so every setting is compared with the same setting-independent value; distinct = distinct logged lines',
+                       ['matched documents are taken from an AllMatches run of the same query (C07 decides that set)', 'floats are compared in thousandths (avg / weighted avg / quantiles)',
+                        'the cardinality sketch is exact at these sizes (<= 5 distinct values)', 'bucket aggregations consume a document once per value in the bucket (transcribed from range.go/terms.go)'],
+                       unit='"ev":"agg"', selfcontained=True)
+
+
+CHECKS = {'C13': check_c13, 'C19': check_c19, 'C07': check_c07, 'C09': check_c09, 'C16': check_c16}
 
 MANIFEST_ENTRIES = {
+    'C16': ('Aggs.tla defines every aggregation as direct evaluation over the matched documents (count, sum, min, max, (sum, n) for averages, (sum v*w, sum w) for weighted averages, '
+            'per-value bucket consumption for terms / numeric / date ranges with nested metrics, terms selection = the largest buckets, remainder for single-valued fields, exact distinct count, '
+            'quantiles within [min, max] and monotone). Code: real searches with the whole aggregation tree under many (n, from, sort, after/before) settings incl. n = 0 and the AllMatches '
+            'collector; AggsTrace evaluates the specification on the matched documents for every logged run, which also decides independence of the settings.', '6 C16',
+            'TLA+ specification of aggregation meaning (Aggs.tla) evaluated by TLC on every logged real search (AggsTrace)', SEQ_NOTE, 'model_checking'),
+    'C09': ('CollectorCore.tla defines the complete ranking (sort keys, descending, missing first/last, ties by index order), the slice [from, from+n), and the pages after/before a key '
+            '(search-before = collect under the reversed order, then reverse); Collector.tla transcribes collectSingle/finalizeResults (bounded store, lowest-match-outside shortcut, '
+            'search-after pseudo match) and TLC checks that the machine computes the abstract meaning for all hit lists within bounds. Code: real TopN searches with custom sort orders, '
+            'offsets, After/Before pages and chains are logged with the complete match list and judged by TLC with the same abstract operators (CollectorTrace).', '6 C09',
+            'TLA+ specification of ranking/slicing (CollectorCore) + TLC refinement check of the transcribed collector (Collector) + TLC evaluation of every logged real TopN search (CollectorTrace)',
+            SEQ_NOTE, 'model_checking'),
     'C07': ('Search.tla gives the documented meaning of every covered query kind as a set of live documents (term, match and/or, phrase and multi-phrase with the slop path rule of '
             'search_phrase.go, prefix, wildcard, regexp subset, fuzzy = edit distance with transpositions + required prefix, term/numeric/date ranges with open ends, match-all/none, '
             'boolean nesting with min-should); TLC checks boolean identities of the oracle on all small corpora (SearchMC). Code: the probe indexes generated corpora for real in the '
